@@ -144,3 +144,67 @@ Definition di_cur (d : dbit) : option (bytes * pos) := i_cur (di_it d).
 Definition shards_of (shf : bytes -> nat) (n : nat) (rev : bool) (ix : list (bytes * pos)) : list (list (bytes * pos)) :=
   let ordered := if rev then List.rev ix else ix in
   map (fun i => filter (fun x => Nat.eqb (Nat.modulo (shf (fst x)) n) i) ordered) (seq 0 n).
+
+(* ---- index/sharded_index.go: the shard count and the point operations ---------------------------- *)
+From Coq Require Import ZArith.
+
+(* nextPowerOfTwo on Go's int (64-bit two's complement, >> arithmetic): the shard count that
+   NewShardedIndex derives from the requested ShardNum.  A request below one yields one shard. *)
+Definition next_power_of_two (cap : Z) : Z :=
+  if (cap <? 1)%Z then 1%Z else
+  let n := (cap - 1)%Z in
+  let n := Z.lor n (Z.shiftr n 1) in
+  let n := Z.lor n (Z.shiftr n 2) in
+  let n := Z.lor n (Z.shiftr n 4) in
+  let n := Z.lor n (Z.shiftr n 8) in
+  let n := Z.lor n (Z.shiftr n 16) in
+  if (Z.of_N maxShardCap <=? n)%Z then Z.of_N maxShardCap else (n + 1)%Z.
+
+(* locateShard: hash & (cap-1) *)
+Definition shard_of_hash (n : Z) (hash : N) : Z := Z.land (Z.of_N hash) (n - 1)%Z.
+
+(* the shards as ordered maps; the shard of a key is (shf k) mod n, as in [shards_of] *)
+Definition shard_ix (shf : bytes -> nat) (n : nat) (k : bytes) : nat := Nat.modulo (shf k) n.
+Fixpoint upd_nth {A} (l : list A) (i : nat) (x : A) : list A :=
+  match l, i with
+  | [], _ => []
+  | _ :: r, O => x :: r
+  | y :: r, S j => y :: upd_nth r j x
+  end.
+Definition sh_get (shf : bytes -> nat) (n : nat) (shs : list index) (k : bytes) : option pos :=
+  idx_get (nth (shard_ix shf n k) shs []) k.
+Definition sh_put (shf : bytes -> nat) (n : nat) (shs : list index) (k : bytes) (p : pos) : list index * option pos :=
+  let i := shard_ix shf n k in
+  let '(s', old) := idx_put (nth i shs []) k p in (upd_nth shs i s', old).
+Definition sh_del (shf : bytes -> nat) (n : nat) (shs : list index) (k : bytes) : list index * option pos :=
+  let i := shard_ix shf n k in
+  let '(s', old) := idx_del (nth i shs []) k in (upd_nth shs i s', old).
+Definition sh_size (shs : list index) : nat := fold_right (fun s a => (length s + a)%nat) O shs.
+
+(* index operations as a small language, run on the sharded structure and on one ordered map *)
+Inductive ixop := IxPut (k : bytes) (p : pos) | IxGet (k : bytes) | IxDel (k : bytes) | IxSize.
+Inductive ixres := IxPos (o : option pos) | IxNum (n : nat).
+Definition sh_step shf n (shs : list index) (o : ixop) : list index * ixres :=
+  match o with
+  | IxPut k p => let '(s, old) := sh_put shf n shs k p in (s, IxPos old)
+  | IxGet k => (shs, IxPos (sh_get shf n shs k))
+  | IxDel k => let '(s, old) := sh_del shf n shs k in (s, IxPos old)
+  | IxSize => (shs, IxNum (sh_size shs))
+  end.
+Definition flat_step (ix : index) (o : ixop) : index * ixres :=
+  match o with
+  | IxPut k p => let '(s, old) := idx_put ix k p in (s, IxPos old)
+  | IxGet k => (ix, IxPos (idx_get ix k))
+  | IxDel k => let '(s, old) := idx_del ix k in (s, IxPos old)
+  | IxSize => (ix, IxNum (length ix))
+  end.
+Fixpoint sh_run shf n (shs : list index) (ops : list ixop) : list index * list ixres :=
+  match ops with
+  | [] => (shs, [])
+  | o :: r => let '(s, x) := sh_step shf n shs o in let '(s', xs) := sh_run shf n s r in (s', x :: xs)
+  end.
+Fixpoint flat_run (ix : index) (ops : list ixop) : index * list ixres :=
+  match ops with
+  | [] => (ix, [])
+  | o :: r => let '(s, x) := flat_step ix o in let '(s', xs) := flat_run s r in (s', x :: xs)
+  end.
